@@ -194,7 +194,7 @@ class Gen(object):
             op = [name, rng.randint(-n - 1, n)]
         elif name == "isdisjoint":
             op = [name, self.keylist(0, 4), rng.choice(["list", "Set",
-                                                        "TreeSet"])]
+                                                        "TreeSet", "self"])]
         else:
             raise ValueError(name)
         self.model.apply(op)
